@@ -21,6 +21,10 @@ type c19Entry struct {
 
 type c19Input struct {
 	File []c19Entry `json:"file"`
+	// Probe: further passwords to present (near misses of the stored ones; arbitrary bytes).  Cases
+	// with probes are judged by the property's rule only: their strings are outside the model's
+	// fixed query universe and may hold bytes a Gallina string literal cannot carry.
+	Probe []string `json:"probe,omitempty"`
 }
 
 var c19Users = []string{"a", "*", ""}
@@ -127,6 +131,25 @@ func c19Run(w *vWriter, in c19Input, rng *rand.Rand) {
 			}
 		}
 	}
+	if len(in.Probe) > 0 {
+		for _, e := range in.File {
+			for _, p := range in.Probe {
+				for _, perm := range c19QPerms {
+					got := cs.AA(e.User, p, perm)
+					if want := c19Spec(in, e.User, p, perm); got != want && fail == "" {
+						fail = fmt.Sprintf("file %s: AA(%q,%q,%q)=%v, documented rule says %v", js, e.User, p, perm, got, want)
+					}
+				}
+			}
+		}
+		c := VCase{Input: in, Nontrivial: true, Key: js + "|" + vJSON(in.Probe), Tags: []string{"near-miss-passwords"}}
+		if fail != "" {
+			c.OracleFail = fail
+			c.Sig = "C19:decision-differs-from-rule"
+		}
+		w.Emit(c)
+		return
+	}
 	dup, omit := false, false
 	seen := map[string]bool{}
 	for _, e := range in.File {
@@ -153,6 +176,43 @@ func c19Run(w *vWriter, in c19Input, rng *rand.Rand) {
 		}
 	}
 	w.Emit(c)
+}
+
+func c19RandPass(rng *rand.Rand) string {
+	n := []int{0, 1, 2, 6, 12, 31, 32, 33, 63, 64, 65, 127, 128, 129, 200}[rng.Intn(15)]
+	b := make([]byte, n)
+	for i := range b {
+		switch rng.Intn(8) {
+		case 0:
+			b[i] = 0
+		case 1:
+			b[i] = byte(rng.Intn(256))
+		case 2:
+			b[i] = ' '
+		default:
+			b[i] = byte('A' + rng.Intn(58))
+		}
+	}
+	s := string(b)
+	if rng.Intn(4) == 0 {
+		s += "\x00\x00"[:1+rng.Intn(2)]
+	}
+	return strings.ToValidUTF8(s, "é") // the file is JSON: invalid UTF-8 would not survive encoding
+}
+
+func c19NearMisses(pw string, rng *rand.Rand) []string {
+	out := []string{pw, pw + "\x00", "\x00" + pw, pw + " ", " " + pw, pw + pw, strings.ToUpper(pw), strings.ToLower(pw), strings.TrimRight(pw, "\x00"), strings.TrimSpace(pw), ""}
+	if len(pw) > 0 {
+		out = append(out, pw[:len(pw)-1], pw[1:])
+		i := rng.Intn(len(pw))
+		b := []byte(pw)
+		b[i] ^= 1 << uint(rng.Intn(8))
+		out = append(out, string(b))
+		b = []byte(pw)
+		b[len(b)-1] = 0
+		out = append(out, string(b))
+	}
+	return out
 }
 
 func c19AllEntries() []c19Entry {
@@ -204,6 +264,20 @@ func TestVerif_C19(t *testing.T) {
 				}
 			}
 		}
+	}
+	// near-miss passwords (rule oracle only): stored passwords of arbitrary bytes and lengths, presented
+	// exactly and with one small edit each (trailing/leading NUL or space, one byte dropped or changed,
+	// case flipped, doubled), so that a comparison that is not exact equality has an input to fail on
+	for i, m := 0, vN(150, 3000); i < m; i++ {
+		in := c19Input{}
+		var probes []string
+		for j, l := 0, 1+rng.Intn(3); j < l; j++ {
+			pw := c19RandPass(rng)
+			in.File = append(in.File, c19Entry{User: fmt.Sprintf("u%d", j), Pass: pw, Perms: []string{[]string{"p", "all", "q"}[rng.Intn(3)]}})
+			probes = append(probes, c19NearMisses(pw, rng)...)
+		}
+		in.Probe = probes
+		c19Run(w, in, rng)
 	}
 	// random longer files
 	n := vN(300, 5000)
